@@ -26,21 +26,32 @@ REQUEST_BUDGET_S = 5.0
 
 # ------------------------------------------------------------------ catalogue
 _REV = [False]
+_TAIL = [0]
 
 
 def _ring(n):
     """(i, successor of i) around the ring; reversed for the *_rev shapes so that the
-    link direction is opposite to the (name-sorted) load order as well"""
+    link direction is opposite to the (name-sorted) load order as well.  The *_lasso shapes add a tail of
+    nodes outside the ring that leads into it (node n -> 0, n+1 -> n): walks that start on the tail enter the
+    cycle but never come back to their starting point."""
     if _REV[0]:
-        return [(i, (i - 1) % n) for i in range(n)]
-    return [(i, (i + 1) % n) for i in range(n)]
+        ring = [(i, (i - 1) % n) for i in range(n)]
+    else:
+        ring = [(i, (i + 1) % n) for i in range(n)]
+    return ring + [(n + k, 0 if k == 0 else n + k - 1) for k in range(_TAIL[0])]
+
+
+def _entry(n):
+    """The node user code starts from: the far end of the tail, or node 0 of a plain ring."""
+    return n + _TAIL[0] - 1 if _TAIL[0] else 0
 
 
 def shape_use(n):
     units = []
     for i, j in _ring(n):
         units.append((f"um{i}", f"module um{i}\n  use um{j}\n  implicit none\n  integer :: uv{i}\ncontains\n  subroutine us{i}()\n    uv{i} = uv{j}\n  end subroutine us{i}\nend module um{i}\n"))
-    units.append(("uprog", "program uprog\n  use um0\n  implicit none\n  uv0 = 1\n  call us0()\nend program uprog\n"))
+    e = _entry(n)
+    units.append(("uprog", f"program uprog\n  use um{e}\n  implicit none\n  uv{e} = 1\n  call us{e}()\nend program uprog\n"))
     return units
 
 
@@ -58,10 +69,11 @@ def shape_extends(n):
         body += (f"  type, extends(et{j}) :: et{i}\n    integer :: ec{i}\n  contains\n    procedure :: ep => eimpl{i}\n"
                  f"    procedure :: eq{i} => eimpl{i}\n  end type et{i}\n")
     body += "contains\n"
-    for i in range(n):
+    for i, _ in _ring(n):
         body += f"  subroutine eimpl{i}(self)\n    class(et{i}) :: self\n    self%ec{i} = 1\n    call self%ep()\n  end subroutine eimpl{i}\n"
     body += "end module em\n"
-    prog = "program eprog\n  use em\n  type(et0) :: ev\n  ev%ec0 = 2\n  call ev%ep()\n  call ev%eq0()\nend program eprog\n"
+    e = _entry(n)
+    prog = f"program eprog\n  use em\n  type(et{e}) :: ev\n  ev%ec{e} = 2\n  call ev%ep()\n  call ev%eq{e}()\nend program eprog\n"
     return [("em", body), ("eprog", prog)]
 
 
@@ -71,7 +83,8 @@ def shape_extends_files(n):
         units.append((f"xm{i}", f"module xm{i}\n  use xm{j}\n  implicit none\n  type, extends(xt{j}) :: xt{i}\n    integer :: xc{i}\n  contains\n"
                                f"    procedure :: xp => ximpl{i}\n  end type xt{i}\ncontains\n  subroutine ximpl{i}(self)\n    class(xt{i}) :: self\n"
                                f"    self%xc{i} = 1\n  end subroutine ximpl{i}\nend module xm{i}\n"))
-    units.append(("xprog", "program xprog\n  use xm0\n  type(xt0) :: xv\n  xv%xc0 = 1\n  call xv%xp()\nend program xprog\n"))
+    e = _entry(n)
+    units.append(("xprog", f"program xprog\n  use xm{e}\n  type(xt{e}) :: xv\n  xv%xc{e} = 1\n  call xv%xp()\nend program xprog\n"))
     return units
 
 
@@ -93,7 +106,7 @@ def shape_pointer(n):
     b = "subroutine psub()\n  implicit none\n"
     for i, j in _ring(n):
         b += f"  integer, pointer :: pa{i} => pa{j}\n"
-    b += "  pa0 = 1\n  print *, pa0\nend subroutine psub\n"
+    b += f"  pa{_entry(n)} = 1\n  print *, pa{_entry(n)}\nend subroutine psub\n"
     return [("psub", b)]
 
 
@@ -118,7 +131,7 @@ def shape_binding(n):
     b = "module bm\n  implicit none\n  type :: bt\n  contains\n"
     for i, j in _ring(n):
         b += f"    procedure :: bp{i} => bp{j}\n"
-    b += "  end type bt\ncontains\n  subroutine buse(v)\n    class(bt) :: v\n    call v%bp0()\n  end subroutine buse\nend module bm\n"
+    b += f"  end type bt\ncontains\n  subroutine buse(v)\n    class(bt) :: v\n    call v%bp{_entry(n)}()\n  end subroutine buse\nend module bm\n"
     return [("bm", b)]
 
 
@@ -145,7 +158,16 @@ def shape_include(n):
     units = []
     for i, j in _ring(n):
         units.append((f"inc{i}", f"  integer :: iv{i}\n  include 'inc{j}.f90'\n"))
-    units.append(("iprog", "program iprog\n  implicit none\n  include 'inc0.f90'\n  iv0 = 1\nend program iprog\n"))
+    e = _entry(n)
+    units.append(("iprog", f"program iprog\n  implicit none\n  include 'inc{e}.f90'\n  iv{e} = 1\nend program iprog\n"))
+    return units
+
+
+def shape_include_in_scope(n):
+    """Ordinary source files whose procedure bodies INCLUDE the next source file of the ring (n = 1: itself)."""
+    units = []
+    for i, j in _ring(n):
+        units.append((f"qsrc{i}", f"integer :: qtop{i}\nsubroutine qsub{i}()\n  integer :: qv{i}\n  include 'qsrc{j}.f90'\n  qv{i} = 1\nend subroutine qsub{i}\n"))
     return units
 
 
@@ -216,7 +238,7 @@ SHAPES = {
     "associate": shape_associate, "associate_nested": shape_associate_nested, "binding": shape_binding,
     "procptr": shape_procptr, "generic": shape_generic, "include": shape_include, "pp_include": shape_pp_include,
     "pp_macro": shape_pp_macro, "select_type": shape_select, "component": shape_component, "iface_arg": shape_iface_arg,
-    "result_name": shape_result, "self_use": shape_self_use,
+    "result_name": shape_result, "self_use": shape_self_use, "include_in_scope": shape_include_in_scope,
 }
 
 
@@ -232,6 +254,22 @@ def _reversed(fn):
 
 for _name in ("use", "extends_files", "submodule", "submodule_colon", "include", "pp_include", "pointer", "binding"):
     SHAPES[_name + "_rev"] = _reversed(SHAPES[_name])
+
+
+def _lasso(fn, t):
+    def g(n):
+        _TAIL[0] = t
+        try:
+            return fn(n)
+        finally:
+            _TAIL[0] = 0
+    return g
+
+
+for _name in ("use", "extends", "extends_files", "submodule", "include", "pointer", "binding", "extends_files_rev", "include_rev",
+              "include_in_scope"):
+    for _t in (1, 2):
+        SHAPES[f"{_name}_lasso{_t}"] = _lasso(SHAPES[_name], _t)
 
 
 def render(units, placement):
